@@ -29,7 +29,7 @@ Fixpoint find_prefixed (p : list Z) (ls : list (list Z)) : option (list Z) :=
 
 (* the stream a panel receives, split again at LF, must be the strings (plus the empty rest) *)
 Definition frame_ok (outs : list (list Z)) : bool :=
-  list_eqb bytes_eqb (unframe (frame outs)) (outs ++ [[]]).
+  list_eqb bytes_eqb (split_on_fast 10 (frame outs)) (outs ++ [[]]).   (* = unframe (frame outs), split_on_fast_eq *)
 
 Definition nonempty (l : list (list Z)) : bool := match l with [] => false | _ => true end.
 
@@ -53,7 +53,8 @@ Definition judge_flat (svg : bool) (prefix value : list Z) (outs : list (list Z)
            new rune (Props/C07.v c07_flatten_keeps_joins), so only no-LF and the model are checked there *)
         if utf8_valid value && negb (bytes_eqb (nonws payload) (nonws value)) then v_specfail "c07-content" (B (nonws payload))
         else
-          let m := one_line (if svg then strip_lb_svg value else strip_lb value) in
+          (* strip_lb_fast = strip_lb, strip_lb_svg_fast = strip_lb_svg (Props/C07.v c07_execution_twins) *)
+          let m := one_line (if svg then strip_lb_svg_fast value else strip_lb_fast value) in
           if bytes_eqb m payload then v_ok true else v_mismatch (B m)
       end
   end.
@@ -82,7 +83,7 @@ Definition run_case (s : sexp) : sexp :=
       end
     else v_badcase
   | L [S n; B a; B b] =>
-    if bytes_eqb n (str "trim") then (if bytes_eqb (trim_space a) b then v_ok true else v_mismatch (B (trim_space a)))
+    if bytes_eqb n (str "trim") then (if bytes_eqb (trim_space_fast a) b && bytes_eqb (trim_space a) b then v_ok true else v_mismatch (B (trim_space a)))
     else v_badcase
   | _ => v_badcase
   end.
